@@ -22,6 +22,7 @@ type Whisper struct {
 	flock        bool
 	perm         os.FileMode
 	pageSize     int64
+	fileSize     int64
 }
 
 // Option is the type for options for creating or opening a whisper file.
@@ -81,6 +82,7 @@ func Create(filename string, archiveInfoList []ArchiveInfo, aggregationMethod Ag
 		w.file.Close()
 		return nil, err
 	}
+	w.fileSize = fileSize
 	w.fileBuf = filebuffer.New(w.file, fileSize, w.pageSize)
 
 	if err := w.putHeader(); err != nil {
@@ -114,11 +116,17 @@ func Open(filename string, opts ...Option) (*Whisper, error) {
 		return nil, fmt.Errorf("stat: %s: %s", filename, err)
 	}
 
+	w.fileSize = st.Size()
 	w.fileBuf = filebuffer.New(w.file, st.Size(), w.pageSize)
 
 	if err := w.readHeader(); err != nil {
 		w.file.Close()
 		return nil, fmt.Errorf("readHeader: %s: %s", filename, err)
+	}
+	if w.fileSize < w.header.ExpectedFileSize() {
+		w.file.Close()
+		return nil, fmt.Errorf("open: %s: file size %d is smaller than %d expected from the header",
+			filename, w.fileSize, w.header.ExpectedFileSize())
 	}
 	return w, nil
 }
@@ -437,6 +445,9 @@ func (w *Whisper) readHeader() error {
 		}
 
 		wantSize := werr.WantedBufSize
+		if int64(wantSize) > w.fileSize {
+			return errors.New("file is shorter than its header")
+		}
 		if wantSize > len(buf) {
 			buf = make([]byte, wantSize)
 		}
